@@ -94,11 +94,6 @@ FINDINGS = [
     ("C29", "C29/getitem/values", "case.get('style') == 'adv_mixed'",
      "int and list indices separated by a slice: NumPy moves the list dimension to the front, the axes metadata keeps positional order"),
     ("C29", "C29/getitem/selected-metadata-ordinal", "case.get('style') == 'adv_mixed'", "same as above"),
-    ("C29", "C29/expand_dims/values", "case.get('form') in ('negative', 'unsorted')",
-     "expand_dims normalises negative positions against the old shape and inserts metadata sequentially"),
-    ("C29", "C29/expand_dims/axes", "case.get('form') in ('negative', 'unsorted')", "same as above"),
-    ("C29", "C29/no-exception", "case.get('op') == 'expand_dims' and case.get('form') in ('negative', 'unsorted') and any(m in detail for m in "
-     "('number of values for ordinal axis', 'Number of slice thicknesses must match', 'number of miller indices must be equal'))", "same as above (raises)"),
     ("C29", "C29/no-exception", "case.get('op') == 'reduce' and case.get('keepdims') and 'number of values for ordinal axis' in detail",
      "reductions with keepdims=True over an ordinal axis raise (n-valued axis entry kept for a length-1 dimension)"),
     ("C29", "C29/no-exception", "case.get('op') == 'getitem' and (case.get('has_none') or case.get('has_adv')) and any(m in detail for m in "
